@@ -186,6 +186,8 @@ def _resolve_cls(name):
 def call_native(eng, obj, args, kwargs, st):
     if isinstance(obj, SpecOp):
         return call_specop(eng, obj, args, kwargs, st)
+    if isinstance(obj, _ItemGetter):
+        return eng.getitem(args[0], obj.key, st)
     if isinstance(obj, SpecFun):
         if all(_concrete(a) for a in args) and obj.py is not None:
             return ok(obj.py(*args), st)
@@ -550,6 +552,9 @@ def n_tuple(eng, args, kwargs, st):
 def n_list(eng, args, kwargs, st):
     if not args:
         return ok(st.alloc(HList([])), st)
+    if isinstance(args[0], Opq):
+        eng.assumed.add("list(<opaque iterable>) is an opaque list")
+        return ok(Opq(z3.Function("list_of", Obj, Obj)(args[0].t), None), st)
     return ok(st.alloc(HList(eng.iter_concrete(args[0], st))), st)
 
 
@@ -819,6 +824,21 @@ def n_setattr(eng, args, kwargs, st):
     raise Unsupported("setattr on %r" % (o,))
 
 
+class _ItemGetter:
+    def __init__(self, key):
+        self.key = key
+
+
+def n_itemgetter(eng, args, kwargs, st):
+    if len(args) != 1 or isinstance(args[0], (Sym, Opq, Ref)):
+        raise Unsupported("itemgetter with several / symbolic keys")
+    return ok(Native(_ItemGetter(args[0])), st)
+
+
+def n_ordereddict(eng, args, kwargs, st):
+    return n_dict(eng, args, kwargs, st)
+
+
 def n_identity(eng, args, kwargs, st):
     return ok(args[0] if len(args) == 1 else tuple(args), st)
 
@@ -832,7 +852,8 @@ NATIVE = {
     itertools.takewhile: n_takewhile, ast.literal_eval: n_literal_eval, abs: n_abs, max: n_max, min: n_min,
     zip: n_zip, str.casefold: n_casefold, itertools.chain.from_iterable: n_chain_from_iterable,
     itertools.chain: n_chain, print: n_print, ast.NodeTransformer.generic_visit: n_generic_visit,
-    itertools.cycle: n_cycle, itertools.islice: n_islice, setattr: n_setattr,
+    itertools.cycle: n_cycle, itertools.islice: n_islice, setattr: n_setattr, operator.itemgetter: n_itemgetter,
+    __import__("collections").OrderedDict: n_ordereddict,
     str.strip: n_str_method("strip"), str.lstrip: n_str_method("lstrip"), str.rstrip: n_str_method("rstrip"),
     str.startswith: n_str_method("startswith"), str.endswith: n_str_method("endswith"),
     str.lower: n_str_method("lower"),
@@ -1022,6 +1043,9 @@ def str_method(eng, recv, name, args, kwargs, st):
                 parts.append(recv)
             parts.append(it)
         return ok(concat(parts) if parts else "", st)
+    if name == "split":
+        eng.assumed.add("str.split on a symbolic string: result is an opaque list (only handed on to opaque calls)")
+        return ok(Opq(z3.Function("str_split", S, Obj)(s), None), st)
     raise Unsupported("str.%s on a symbolic string" % name)
 
 
@@ -1073,7 +1097,9 @@ def dict_method(eng, ref, h, name, args, kwargs, st):
                         res.extend(dict_method(eng, ref, hh, name, args, kwargs, s2))
                     return res
         if name == "keys":
-            return ok(st.alloc(HList(list(h.keys))), st)
+            kl = HList(list(h.keys))
+            kl.is_keys = True
+            return ok(st.alloc(kl), st)
         if name == "values":
             return ok(st.alloc(HList([h.vals[k] for k in h.keys])), st)
         return ok(st.alloc(HList([(k, h.vals[k]) for k in h.keys])), st)
